@@ -5052,7 +5052,8 @@ compact_message (const NiceOutputMessage *message, gsize buffer_length)
        (message->n_buffers < 0 && message->buffers[i].buffer != NULL);
        i++) {
     gsize len = MIN (buffer_length - offset, message->buffers[i].size);
-    memcpy (buffer + offset, message->buffers[i].buffer, len);
+    if (len > 0)
+      memcpy (buffer + offset, message->buffers[i].buffer, len);
     offset += len;
   }
 
